@@ -144,6 +144,24 @@ CASES = [
                "_reparam(Reaction({'A': 2}, {'B': 1}, MassAction(Arrhenius([A, Ea]))), MassAction(Arrhenius([Ao, Eo])), {'A': cA, 'temperature': T}, 'B', backend=be)",
          formula="(k1*cA**2, k2*cA**2, k2*cA**2, -2*k1*cA**2, -2*k2*cA**2, k2*cA**2, A*be.exp(-Ea/(R0*T))*cA**2, Ao*be.exp(-Eo/(R0*T))*cA**2, "
                  "Ao*be.exp(-Eo/(R0*T))*cA**2, A*be.exp(-Ea/T)*cA**2, Ao*be.exp(-Eo/T)*cA**2, Ao*be.exp(-Eo/T)*cA**2)"),
+    # named overrides survive the conversion of a parameter set into a rate expression - plain and unit-carrying variants
+    dict(name="param_set_unique_keys", targets=["chempy.kinetics.arrhenius.ArrheniusParam:as_RateExpr", "chempy.kinetics.arrhenius.ArrheniusParamWithUnits:as_RateExpr"],
+         setup=RS + "from chempy.kinetics.arrhenius import ArrheniusParamWithUnits\n",
+         vars={"A": POS, "Ea": ANY, "Ao": POS, "Eo": ANY, "T": TR, "cA": POS},
+         plain="(ArrheniusParam(A, Ea).as_RateExpr(unique_keys=('A1', 'E1'))({'temperature': T, 'A1': Ao, 'A': cA}, reaction=rxn1, backend=be), "
+               "ArrheniusParam(A, Ea).as_RateExpr(('A1', 'E1'))({'temperature': T, 'E1': Eo, 'A': cA}, reaction=rxn1, backend=be), "
+               "ArrheniusParamWithUnits(A/U.s, Ea*U.J/U.mol).as_RateExpr(('A1', 'E1'), Cs, U)({'temperature': T*U.K, 'A1': Ao/U.s, 'A': cA*U.molar}, reaction=rxn1, backend=be), "
+               "ArrheniusParamWithUnits(A/U.s, Ea*U.J/U.mol).as_RateExpr(unique_keys=('A1', 'E1'), constants=Cs, units=U)({'temperature': T*U.K, 'E1': Eo*U.K, 'A': cA*U.molar}, reaction=rxn1, backend=be), "
+               "ArrheniusParamWithUnits(A/U.s, Ea*U.J/U.mol).as_RateExpr(None, Cs, U)({'temperature': T*U.K, 'A': cA*U.molar}, reaction=rxn1, backend=be))",
+         formula="(Ao*be.exp(-Ea/(R0*T))*cA, A*be.exp(-Eo/T)*cA, Ao/U.s*be.exp(-Ea*U.J/U.mol/(Cs.molar_gas_constant*T*U.K))*cA*U.molar, "
+                 "A/U.s*be.exp(-Eo/T)*cA*U.molar, A/U.s*be.exp(-Ea*U.J/U.mol/(Cs.molar_gas_constant*T*U.K))*cA*U.molar)"),
+    # doserate names in the order GIVEN (not alphabetical): each yield belongs to the name at its position
+    dict(name="Radiolytic_name_order", targets=["chempy.kinetics.rates.mk_Radiolytic"], setup=RS,
+         vars={"g": POS, "g2": POS, "g3": POS, "rho": POS, "dr": POS, "dr2": POS, "dr3": POS, "go": POS},
+         plain="(mk_Radiolytic('gamma', 'alpha')([g, g2])({'density': rho, 'doserate_gamma': dr, 'doserate_alpha': dr2}), "
+               "mk_Radiolytic('neutron', 'gamma', 'alpha')([g, g2, g3])({'density': rho, 'doserate_neutron': dr, 'doserate_gamma': dr2, 'doserate_alpha': dr3}), "
+               "mk_Radiolytic('gamma', 'alpha')([g, g2], unique_keys=('Gg', 'Ga'))({'density': rho, 'doserate_gamma': dr, 'doserate_alpha': dr2, 'Gg': go}))",
+         formula="(rho*(dr*g + dr2*g2), rho*(dr*g + dr2*g2 + dr3*g3), rho*(dr*go + dr2*g2))"),
     dict(name="polynomials", targets=["chempy.util._expr.create_Poly"], setup=RS,
          vars={"a0": ANY, "a1": ANY, "a2": ANY, "a3": ANY, "T": TR, "Tref": TR, "lT": ANY},
          plain="(TPoly([a0, a1, a2, a3])({'temperature': T}), RTPoly([a0, a1, a2])({'temperature': T}), ShiftedTPoly([Tref, a0, a1, a2])({'temperature': T}), "
